@@ -368,6 +368,16 @@ func (r *Run) Finish() {
 	for _, c := range r.incon {
 		fmt.Println("  inconclusive:", c)
 	}
+	if len(r.findingSigs) > 0 {
+		var sigs []string
+		for k := range r.findingSigs {
+			sigs = append(sigs, k)
+		}
+		sort.Strings(sigs)
+		for _, k := range sigs {
+			fmt.Printf("  violation class %s: %d\n", k, r.findingSigs[k])
+		}
+	}
 	if len(r.findings) > 0 {
 		for _, f := range r.findings {
 			p := r.ReplayPath
